@@ -97,6 +97,9 @@ SCALARS = [
     ("Num", Num, [Num.ONE, Num.TWO]),
     ("Literal", typing.Literal["a", 2, None], ["a", 2, None]),
     ("Literal[1,x]", typing.Literal[1, "x"], [1, "x"]),
+    # literals that are == but of different classes are distinct declared values (typing de-duplicates by type and value)
+    ("Literal[True,1]", typing.Literal[True, 1], [1, True]),
+    ("Literal[0,False,x]", typing.Literal[0, False, "x"], [False, 0, "x"]),
 ]
 
 
